@@ -4,7 +4,7 @@ from google.protobuf import descriptor_pb2 as dp
 from google.protobuf.descriptor import FieldDescriptor as FD
 from .. import env, coq, gen, apigen, dyn
 from . import callutil as U, flatapi as A, flatgen
-from .c05 import pick_sigs
+from .c05 import pick_sigs, pp_falsy
 
 F = dp.FieldDescriptorProto
 OPERATION = ".google.longrunning.Operation"
@@ -521,8 +521,14 @@ class ApiRun:
             if not m.client_streaming and o["ok"] and npath is not None:
                 got = self.dyn.parse("." + m.input_type[1:], o["calls"][0]["requests"][0]) if nreq == 1 else None
                 if got is not None:
+                    in_pp = self.idx.proto_plus_pkg(self.idx.package_of(m.input_type))
+
                     def opaque(x):
+                        # the whole request as one opaque value; a proto-plus request whose set fields all hold false values is
+                        # marked as such (Model/Flatten.v: leaf_falsy), since bool(request) decides a branch of the cross-package block
                         b = hb(U.b64(x))
+                        if b and in_pp and pp_falsy(self.idx, x):
+                            return f"(mkReq [({coq.s(chr(42))}, LS {coq.s('')})] [])"
                         return f"(mkReq {coq.lst([f'({coq.s(chr(42))}, LM {coq.s(b)})'] if b else [])} [])"
                     ra = {"message": f"(RMsg {opaque(sent[0])})", "dict": f"(RDict {opaque(sent[0])})", "none": "RNone",
                           "empty_dict": f"(RDict {opaque(sent[0])})"}[sp]
@@ -545,6 +551,9 @@ class ApiRun:
                 ctx.violation(f"{s.name}.{m.name} ({variant}, {sp}): the server received {nreq} request messages, the caller gave {len(sent)}", case, known)
                 continue
             got = [self.dyn.parse(m.input_type, b) for b in o["calls"][0]["requests"]]
+            if got != sent and sp == "message" and self.idx.package_of(m.input_type) != fp.package \
+                    and self.idx.proto_plus_pkg(self.idx.package_of(m.input_type)) and pp_falsy(self.idx, sent[0]) and got == [self.dyn.new(m.input_type[1:])]:
+                known = known or "stubs.cross_pkg_proto_plus_falsy_request"
             if got != sent:
                 ctx.violation(f"{s.name}.{m.name} ({variant}, {sp}): payload does not decode to the caller's request", dict(case, got_b64=[U.b64(x) for x in got]), known)
                 continue
